@@ -3,6 +3,7 @@ package props
 import (
 	"fmt"
 	"math"
+	"runtime"
 
 	"verif/harness/gen"
 	"verif/harness/mon"
@@ -71,6 +72,27 @@ func genConv(r *gen.R, validOnly bool) (mon.OpReq, Expect, convInfo, bool) {
 		dil[d] = r.PickInt(1, 1, 1, 2, 3)
 		pads[d] = r.PickInt(0, 0, 1, 2, 3)
 		pads[nsp+d] = r.PickInt(0, 0, 1, 2, 3)
+	}
+	switch {
+	case r.Chance(0.06):
+		// many filters (more than the machine has cores, and not a multiple of their number)
+		M = r.Range(4, 40)
+	case r.Chance(0.1):
+		// wide spatial extents (two and three digits), one filter
+		N, C, M = 1, r.Range(1, 2), 1
+		for d := 0; d < nsp; d++ {
+			switch r.Intn(4) {
+			case 0:
+				in[d] = r.Range(8, 14)
+			case 1:
+				in[d] = r.Range(18, 26)
+			case 2:
+				in[d] = r.Range(97, 104)
+			}
+			if r.Chance(0.15) {
+				pads[d], pads[nsp+d] = r.Range(9, 12), r.Range(0, 12)
+			}
+		}
 	}
 	if nsp == 2 && in[0] == in[1] && r.Chance(0.8) {
 		in[1] = in[0]%7 + 1
@@ -236,7 +258,13 @@ func c05Run(c *Ctx) {
 		c.Skip("generator rejected the draw")
 		return
 	}
-	c.SetCase("%s", req.Describe())
+	procs := 0
+	if c.Idx%8 == 2 { // what Conv computes does not depend on the number of processors it may use
+		procs = []int{1, 2, 3, 5, 7}[(c.Idx/8)%5]
+		defer runtime.GOMAXPROCS(runtime.GOMAXPROCS(procs))
+		c.Count("cases-under-another-GOMAXPROCS", 1)
+	}
+	c.SetCase("%s | GOMAXPROCS %d (0: as started)", req.Describe(), procs)
 	if exp.Kind == MustError || (info.asym && info.discrim) {
 		c.Nontrivial(fmt.Sprintf("%v|%v|%v|%s", info.x.Shape, info.w.Shape, info.biasMode, attrsString(req)))
 	}
